@@ -31,11 +31,11 @@ func init() {
 		Plan: func(tier string) []Child {
 			var out []Child
 			if tier == "quick" {
-				out = append(out, Child{Flavour: "race", NCPU: 4, GOMAXPROCS: 4, Shard: 0, NShards: 3, Params: map[string]string{"part": "grid"}})
-				out = append(out, Child{Flavour: "race", NCPU: 4, GOMAXPROCS: 2, Shard: 1, NShards: 3, Params: map[string]string{"part": "grid"}})
-				out = append(out, Child{Flavour: "race", NCPU: 2, GOMAXPROCS: 1, Shard: 2, NShards: 3, Params: map[string]string{"part": "grid"}})
+				out = append(out, Child{TimeoutS: pick(tier, 400, 3600), Flavour: "race", NCPU: 4, GOMAXPROCS: 4, Shard: 0, NShards: 3, Params: map[string]string{"part": "grid"}})
+				out = append(out, Child{TimeoutS: pick(tier, 400, 3600), Flavour: "race", NCPU: 4, GOMAXPROCS: 2, Shard: 1, NShards: 3, Params: map[string]string{"part": "grid"}})
+				out = append(out, Child{TimeoutS: pick(tier, 400, 3600), Flavour: "race", NCPU: 2, GOMAXPROCS: 1, Shard: 2, NShards: 3, Params: map[string]string{"part": "grid"}})
 				for _, k := range []int{1, 2, 3, 5} {
-					out = append(out, Child{Flavour: "race", NCPU: k, Params: map[string]string{"part": "default"}})
+					out = append(out, Child{TimeoutS: pick(tier, 400, 3600), Flavour: "race", NCPU: k, Params: map[string]string{"part": "default"}})
 				}
 				return out
 			}
@@ -43,7 +43,7 @@ func init() {
 				out = append(out, Child{Flavour: "race", NCPU: 1 + i%4, GOMAXPROCS: []int{1, 2, 4, 16}[i%4], Shard: i, NShards: 12, Params: map[string]string{"part": "grid"}})
 			}
 			for k := 1; k <= 16; k++ {
-				out = append(out, Child{Flavour: "race", NCPU: k, Params: map[string]string{"part": "default"}})
+				out = append(out, Child{TimeoutS: pick(tier, 400, 3600), Flavour: "race", NCPU: k, Params: map[string]string{"part": "default"}})
 			}
 			return out
 		},
